@@ -1628,7 +1628,7 @@ func (self *_Assembler) _asm_OP_map_key_u16(p *_Instr) {
 
 func (self *_Assembler) _asm_OP_map_key_u32(p *_Instr) {
 	self.parse_unsigned(uint32Type, "", p.vi())                  // PARSE     uint32
-	self.range_unsigned_CX(_I_uint32, _T_uint32, math.MaxUint32) // RANGE     uint32
+	self.range_uint32_CX(_I_uint32, _T_uint32)                   // RANGE     uint32
 	self.match_char('"')
 	if vt := p.vt(); !rt.IsMapfast(vt) {
 		self.mapassign_std(vt, _VAR_st_Iv) // MAPASSIGN uint32, vt.Iv
